@@ -7,20 +7,23 @@ use crate::schema;
 use crate::schema::validation::BuiltInScalars;
 use crate::schema::Component;
 use crate::validation::diagnostics::DiagnosticData;
+use crate::validation::DepthGuard;
 use crate::validation::DiagnosticList;
 use crate::validation::OperationValidationContext;
+use crate::validation::RecursionLimitError;
 use crate::ExecutableDocument;
 use crate::Name;
 use crate::Node;
 
-pub(crate) fn validate_field(
+pub(super) fn validate_field(
     diagnostics: &mut DiagnosticList,
     document: &ExecutableDocument,
     // May be None if a parent selection was invalid
     against_type: Option<(&crate::Schema, &ast::NamedType)>,
     field: &Node<executable::Field>,
     context: &mut OperationValidationContext<'_>,
-) {
+    guard: &mut DepthGuard<'_>,
+) -> Result<(), RecursionLimitError> {
     // First do all the validation that we can without knowing the type of the field.
 
     super::directive::validate_directives(
@@ -38,14 +41,14 @@ pub(crate) fn validate_field(
     // we still want to traverse into the nested selection set so that validations
     // that do not require a schema (like missing fragment detection) can run.
     let Some((schema, against_type)) = against_type else {
-        super::selection::validate_selection_set(
+        return super::selection::validate_nested_selection_set(
             diagnostics,
             document,
             None,
             &field.selection_set,
             context,
+            guard.increment()?,
         );
-        return;
     };
 
     if let Ok(field_definition) = schema.type_field(against_type, &field.name) {
@@ -128,15 +131,17 @@ pub(crate) fn validate_field(
         )
         .is_ok()
         {
-            super::selection::validate_selection_set(
+            super::selection::validate_nested_selection_set(
                 diagnostics,
                 document,
                 Some((schema, field_definition.ty.inner_named_type())),
                 &field.selection_set,
                 context,
-            )
+                guard.increment()?,
+            )?;
         }
     }
+    Ok(())
 }
 
 pub(crate) fn validate_field_definition(
